@@ -186,6 +186,7 @@ def install_seams():
         setattr(cls, name, wrapper)
 
     wrap(Parser, "parse", before="parse_entry", exc="parse_exc")
+    wrap(Parser, "load_includes", after="includes_exit", toplevel=True)
     wrap(Parser, "_assign_comments", before="assign_entry", toplevel=True)
     wrap(MapfileToDict, "transform", before="transform_entry", after="transform_exit")
     wrap(PrettyPrinter, "pprint", before="pprint_entry", after="pprint_exit")
@@ -212,7 +213,7 @@ def model_pcs(desc, doctable):
     if k == "loads":
         a = doctable[desc["doc"] - 1]
         last = a["fail"] if a["fail"] else a["ntok"]
-        pcs = ["clear"] + ["lex%d" % i for i in range(1, last + 1)]
+        pcs = ["incl", "clear"] + ["lex%d" % i for i in range(1, last + 1)]
         if not a["fail"]:
             if desc["com"]:
                 pcs += ["cdict", "assign"]
@@ -256,6 +257,8 @@ class CallCtx:
         k = self.kind
         if k == "loads":
             if ev == "parse_entry":
+                self.seam("incl")
+            elif ev == "includes_exit":
                 self.seam("clear")
             elif ev == "parse_interactive":
                 self.seam("lex1")
@@ -390,15 +393,20 @@ LAYER_EXTRAS = ['STATUS ON', 'MINSCALEDENOM 100', 'TEMPLATE "t.html"', 'DATA "x.
                 'CLASSITEM "kind"', 'LABELITEM "name"', 'MAXFEATURES 10', 'OFFSITE 0 0 0']
 CLASS_BLOCKS = [['CLASS', '  NAME "c1"', '  STYLE', '    COLOR 255 0 0', '    WIDTH 2', '  END', 'END'],
                 ['CLASS', '  NAME "c2"', '  EXPRESSION "x"', '  STYLE', '    OUTLINECOLOR 0 0 0', '  END', 'END'],
-                ['METADATA', '  "wms_title" "T"', '  "k2" "v2"', 'END']]
+                ['METADATA', '  "wms_title" "T"', '  "k2" "v2"', 'END'],
+                # list-valued keywords whose items are strings / bindings / numbers
+                ['CLASS', '  NAME "c3"', '  STYLE', '    COLORRANGE "#0000ff" "#ff0000"', '    DATARANGE 0 100', '  END', 'END'],
+                ['CLASS', '  NAME "c4"', '  STYLE', '    COLORRANGE 0 0 255 255 0 0', '    DATARANGE 1 2', '    OFFSET [ox] 5',
+                 '  END', 'END']]
 LAYER_TYPES = ["POINT", "LINE", "POLYGON"]
 
 
 class ConcreteDoc:
     """a Mapfile built from the attributes of an abstract document of spec/Calls.tla"""
 
-    def __init__(self, doc, attrs, variant, seed):
+    def __init__(self, doc, attrs, variant, seed, root=None):
         rng = random.Random("%s/%s/%s" % (seed, doc, variant))
+        self.root = root
         self.doc = doc
         self.variant = variant
         self.attrs = attrs
@@ -431,13 +439,33 @@ class ConcreteDoc:
         groups[-1].append("END")
         if fail:
             groups[fail - 1].insert(1 if fail > 1 else 2, '    ]')       # rejected at this token
+        inc = attrs.get("inc", 0)
+        if inc:
+            # the first LAYER lives in an include file next to the document; its NAME says which
+            # file (folder, written name) it came from
+            groups[1][1] = '    NAME "inc%d_dir%d"%s' % (inc, attrs["dir"], cmt(2))
         lines = []
-        self.line_group = {}
+        self.line_group = {}                # line of the expanded text -> group (= abstract token)
         for gi, g in enumerate(groups):
             for ln in g:
                 lines.append(ln)
                 self.line_group[len(lines)] = gi + 1
-        self.text = "\n".join(lines) + "\n"
+        self.expanded = "\n".join(lines) + "\n"
+        self.files = {}                     # relative path -> content
+        folder = "dir%dv%d" % (attrs.get("dir", 0), variant)
+        if inc:
+            self.inc_name = "part%d.inc" % inc
+            self.files[os.path.join(folder, self.inc_name)] = "\n".join(groups[1])
+            main = groups[0] + ['  INCLUDE "%s"' % self.inc_name] + [ln for g in groups[2:] for ln in g]
+            self.text = "\n".join(main) + "\n"
+        else:
+            self.text = self.expanded
+        self.rel = os.path.join(folder, "doc%d.map" % doc)
+        self.files[self.rel] = self.text
+        self.path = os.path.join(root, self.rel) if root else None
+        # which public front end reads this document: text, file name or open file
+        fes = ["open", "load"] if inc or not root else ["loads", "open", "load"]
+        self.fe = {c: fes[(doc + variant + int(c)) % len(fes)] if root else "loads" for c in (True, False)}
         self.comment_ids = {"# c%dv%d_%d" % (doc, variant, k): {"doc": doc, "line": k} for k in com}
         self._d = None                 # the dictionary callers hold (loaded once, with comments)
 
@@ -445,7 +473,10 @@ class ConcreteDoc:
     def d(self):
         """loaded on first use through the public API (fresh workers)"""
         if self._d is None and not self.attrs["fail"]:
-            self._d = mappyfile.loads(self.text, include_comments=True)
+            if self.attrs.get("inc"):
+                self._d = mappyfile.open(self.path, include_comments=True)
+            else:
+                self._d = mappyfile.loads(self.text, include_comments=True)
         return self._d
 
     def reload(self):
@@ -455,12 +486,22 @@ class ConcreteDoc:
         return self.d["layers"]
 
 
-def build_docs(doctable, seed, variants=2):
+def build_docs(doctable, seed, variants=2, root=None):
     docs = {}
     for i, attrs in enumerate(doctable):
         for v in range(variants):
-            docs[(i + 1, v)] = ConcreteDoc(i + 1, attrs, v, seed)
+            docs[(i + 1, v)] = ConcreteDoc(i + 1, attrs, v, seed, root)
     return docs
+
+
+def write_files(docs, root):
+    """the documents and their include files, each document in the folder the table assigns to it"""
+    for cd in docs.values():
+        for rel, content in cd.files.items():
+            p = os.path.join(root, rel)
+            os.makedirs(os.path.dirname(p), exist_ok=True)
+            with open(p, "w", encoding="utf-8", newline="") as f:
+                f.write(content)
 
 
 _envs = {}
@@ -468,9 +509,9 @@ _envs = {}
 
 def get_env(job):
     """documents and reference results, cached per worker process"""
-    key = (job["seed"], json.dumps(job["doctable"], sort_keys=True))
+    key = (job["seed"], json.dumps(job["doctable"], sort_keys=True), job.get("root"))
     if key not in _envs:
-        docs = build_docs(job["doctable"], job["seed"], 2)
+        docs = build_docs(job["doctable"], job["seed"], 2, job.get("root"))
         _envs[key] = (docs, References(docs))
     return _envs[key]
 
@@ -494,7 +535,16 @@ def public_call(desc, cd, private_copy=False):
     unchanged)"""
     k = desc["kind"]
     if k == "loads":
-        return (lambda: mappyfile.loads(cd.text, include_comments=bool(desc["com"]))), [cd.text]
+        com = bool(desc["com"])
+        fe = cd.fe[com]
+        if fe == "open":
+            return (lambda: mappyfile.open(cd.path, include_comments=com)), [cd.path]
+        if fe == "load":
+            def via_load():
+                with open(cd.path, encoding="utf-8") as fp:
+                    return mappyfile.load(fp, include_comments=com)
+            return via_load, [cd.path]
+        return (lambda: mappyfile.loads(cd.text, include_comments=com)), [cd.text]
     if k == "dumps":
         return (lambda: mappyfile.dumps(cd.d)), [cd.d]
     if k == "validate":
@@ -530,7 +580,13 @@ def abstract_result(desc, cd, out, docs_by_comment):
         _collect_comments(d, found)
         cs = [docs_by_comment.get(c, {"doc": -1, "line": -1}) for c in found]
         ok = isinstance(d, dict) and d.get("name") == cd.name
-        return {"k": "dict", "doc": cd.doc if ok else -1, "comments": cs}
+        inc = {"dir": 0, "name": 0}
+        for lyr in (d.get("layers", []) if isinstance(d, dict) else []):
+            nm = str(lyr.get("name", ""))
+            if nm.startswith("inc") and "_dir" in nm:
+                a, b = nm[3:].split("_dir")
+                inc = {"dir": int(b), "name": int(a)}
+        return {"k": "dict", "doc": cd.doc if ok else -1, "comments": cs, "inc": inc}
     if k == "validate":
         if out[0] == "exc":
             return {"k": "exception:" + out[1]}
@@ -579,7 +635,8 @@ def abstract_eq(spec, got):
         return False
     k = spec["k"]
     if k == "dict":
-        return spec["doc"] == got["doc"] and _bag(spec["comments"]) == _bag(got["comments"])
+        return (spec["doc"] == got["doc"] and _bag(spec["comments"]) == _bag(got["comments"])
+                and spec.get("inc") == got.get("inc"))
     if k == "msgs":
         return spec["doc"] == got["doc"] and sorted(spec["errs"]) == sorted(got["errs"])
     if k == "text":
@@ -717,6 +774,55 @@ def task_purity(job):
     return {"records": rec.records, "cases": rec.cases, "loaded": loaded, "cpu": time.process_time() - c0}
 
 
+_slot_loader = None
+
+
+def task_purity_slots(job):
+    """the slot product of spec/SlotProbe.tla (one document per block type x keyword x value
+    alternative x position): every keyword with every shape of value - scalars, lists of numbers,
+    of strings, of bindings, repeated keywords, key-value blocks, point lists - goes through
+    dumps (two option sets), dump and validate under the snapshot.  The documents are loaded by one
+    re-used Parser/MapfileToDict pair (re-use == fresh is part (b)); the calls under test are the
+    public ones.  job: {"base", "seed", "hists": [behaviour ...]}"""
+    global _slot_loader
+    from . import concretise, docs as docsmod
+    c0 = time.process_time()
+    if _slot_loader is None:
+        _slot_loader = (Parser(expand_includes=False, include_comments=True),
+                        MapfileToDict(include_position=True, include_comments=True))
+    P, M = _slot_loader
+    conc = concretise.Concretiser(job["seed"])
+    rec = Recorder(job["base"])
+    loaded = 0
+    for j, h in enumerate(job["hists"]):
+        info = h[-1].get("info") or {}
+        slot = info.get("slot", ["?", "?", "?", ""])
+        name = "slot:%s.%s:%s%s@%s" % (slot[0], slot[1], slot[2], (":" + str(slot[3])) if slot[3] else "", info.get("pos", ""))
+        text, _ = concretise.assemble(conc.tokens(concretise.with_root(h, docsmod.root_type(h))))
+        try:
+            d = M.transform(P.parse(text))
+        except Exception:  # noqa: BLE001   (what is accepted is C02's business)
+            continue
+        loaded += 1
+        src = {"text": text, "file": None}
+        rec.call("dumps", "dumps", name, lambda: mappyfile.dumps(d), [d], dict(src, call="dumps(d)"))
+        rec.call("dumps", "dumps", name, lambda: mappyfile.dumps(d, indent=2, quote="'", align_values=True), [d],
+                 dict(src, call="dumps(d, indent=2, quote=\"'\", align_values=True)"))
+        rec.call("validate", "validate", name, lambda: mappyfile.validate(d), [d], dict(src, call="validate(d)"))
+        if j % 8 == 0:
+            buf = io.StringIO()
+            rec.call("dumps", "dump", name, lambda: mappyfile.dump(d, buf), [d], dict(src, call="dump(d, fp)"))
+            for ver in (7.6, 8.0):
+                rec.call("validate", "validate", name, lambda: mappyfile.validate(d, version=ver), [d],
+                         dict(src, call="validate(d, version=%r)" % ver))
+        for path, lst in list(object_lists(d))[:1]:
+            rec.call("findunique", "findunique", name, lambda: mappyfile.findunique(lst, "name"), [lst],
+                     dict(src, call="findunique(%s, 'name')" % "/".join(map(str, path))))
+            rec.call("findall", "findall", name, lambda: mappyfile.findall(lst, "name", ["x"]), [lst],
+                     dict(src, call="findall(%s, 'name', ['x'])" % "/".join(map(str, path))))
+    return {"records": rec.records, "cases": rec.cases, "loaded": loaded, "cpu": time.process_time() - c0}
+
+
 # ================================================================================ (b) reuse
 
 class References:
@@ -755,6 +861,14 @@ class Workers:
         k = desc["kind"]
         if k == "loads":
             c = bool(desc["com"])
+            fe = cd.fe[c]
+            if fe == "open":
+                return outcome(lambda: self.m2d[c].transform(self.parser[c].parse_file(cd.path)))
+            if fe == "load":
+                def via_load():
+                    with open(cd.path, encoding="utf-8") as fp:
+                        return self.m2d[c].transform(self.parser[c].load(fp))
+                return outcome(via_load)
             return outcome(lambda: self.m2d[c].transform(self.parser[c].parse(cd.text)))
         if k == "dumps":
             return outcome(lambda: self.pp.pprint(cd.d))
@@ -788,7 +902,8 @@ def task_reuse(job):
             n += 1
             classes.add((desc["kind"], desc["doc"], bool(desc["com"]), desc["ver"]))
             case = {"part": "reuse", "history": list(trail), "seed": job["seed"], "doctable": job["doctable"],
-                    "variants": job.get("variants", 2), "text": cd.text}
+                    "variants": job.get("variants", 2), "text": cd.text, "root": job.get("root"),
+                    "front_end": cd.fe[bool(desc["com"])] if desc["kind"] == "loads" else None}
             if not abstract_eq(h["exp"], ref_abs):
                 viol.append(("C12|seq|%s|spec-mismatch" % desc["kind"],
                              "fresh public %s returned %s, the specification predicts %s" % (
@@ -814,7 +929,7 @@ def task_reuse(job):
 def call_str(desc):
     k = desc["kind"]
     if k == "loads":
-        return "loads(doc%d, include_comments=%s)" % (desc["doc"], bool(desc["com"]))
+        return "loads/open/load(doc%d, include_comments=%s)" % (desc["doc"], bool(desc["com"]))
     if k == "validate":
         return "validate(doc%d, version=%s)" % (desc["doc"], VERSIONS[desc["ver"]])
     if k == "dumps":
@@ -964,7 +1079,7 @@ def task_schedules(job):
                 break
             continue
         case = {"part": "schedule", "script": script, "schedule": sched, "variants": variants, "seed": job["seed"],
-                "doctable": job["doctable"],
+                "doctable": job["doctable"], "root": job.get("root"),
                 "texts": {"%d/%d" % k: docs[k].text for k in used}}
         hist = job["hists"][si] if job.get("hists") else None
         for ti, calls in enumerate(script):
